@@ -270,6 +270,81 @@ def run(ctx):
 
 
 # --------------------------------------------------------------------------- R12.4
+from ..terms import subst  # noqa: E402
+
+
+def _terms_of(fi):
+    """(list of component expressions with locals inlined, tangent param name) or None"""
+    ps = fi.params()
+    if len(ps) < 3:
+        return None
+    env = {}
+    for st in fi.node.body:
+        if isinstance(st, ast.Assign) and len(st.targets) == 1 and isinstance(st.targets[0], ast.Name):
+            env[st.targets[0].id] = subst(st.value, env)
+        elif isinstance(st, ast.Return):
+            v = subst(st.value, env)
+            if isinstance(v, ast.Call) and src(v.func) == "type(primals)" and len(v.args) == 1:
+                v = v.args[0]
+            comps = list(v.elts) if isinstance(v, ast.Tuple) else [v]
+            return comps, ps[1], ps[2]
+        elif isinstance(st, ast.Expr):
+            continue
+        else:
+            return None
+    return None
+
+def _tosym(sp, e, syms, cval):
+    if isinstance(e, ast.Constant) and isinstance(e.value, (int, float)):
+        return sp.nsimplify(e.value)
+    s = src(e)
+    if s == "self.iscomplex":
+        return sp.Integer(cval)
+    if s == "self.dof":
+        return syms["dof"]
+    if isinstance(e, ast.Subscript) and isinstance(e.value, ast.Name) and isinstance(e.slice, ast.Constant):
+        return syms.setdefault(f"{e.value.id}[{e.slice.value}]", sp.Symbol(f"{e.value.id}_{e.slice.value}", positive=True))
+    if isinstance(e, ast.Name):
+        return syms.setdefault(e.id, sp.Symbol(e.id, positive=True))
+    if isinstance(e, ast.BinOp):
+        a, b = _tosym(sp, e.left, syms, cval), _tosym(sp, e.right, syms, cval)
+        ops = {ast.Add: lambda: a + b, ast.Sub: lambda: a - b, ast.Mult: lambda: a * b, ast.Div: lambda: a / b, ast.Pow: lambda: a ** b}
+        if type(e.op) in ops:
+            return ops[type(e.op)]()
+    if isinstance(e, ast.UnaryOp) and isinstance(e.op, ast.USub):
+        return -_tosym(sp, e.operand, syms, cval)
+    if isinstance(e, ast.Call):
+        f = src(e.func)
+        if f in ("jnp.sqrt", "np.sqrt") and len(e.args) == 1:
+            return sp.sqrt(_tosym(sp, e.args[0], syms, cval))
+        if f in ("jnp.log", "np.log") and len(e.args) == 1:
+            return sp.log(_tosym(sp, e.args[0], syms, cval))
+        if f in ("jnp.maximum", "np.maximum", "jnp.minimum", "np.minimum") and len(e.args) == 2:
+            a, b = (_tosym(sp, z, syms, cval) for z in e.args)
+            return (sp.Max if f.endswith("maximum") else sp.Min)(a, b)
+        if f in ("jnp.clip", "np.clip") and len(e.args) >= 2:
+            a = _tosym(sp, e.args[0], syms, cval)
+            lo = e.args[1]
+            hi = e.args[2] if len(e.args) > 2 else None
+            if not (isinstance(lo, ast.Constant) and lo.value is None):
+                a = sp.Max(a, _tosym(sp, lo, syms, cval))
+            if hi is not None and not (isinstance(hi, ast.Constant) and hi.value is None):
+                a = sp.Min(a, _tosym(sp, hi, syms, cval))
+            return a
+        if f in ("tree_map", "jax.tree_util.tree_map", "jax.tree.map") and len(e.args) == 2:
+            fn, arg = e.args
+            if isinstance(fn, ast.Lambda) and len(fn.args.args) == 1:
+                return _tosym(sp, subst(fn.body, {fn.args.args[0].arg: arg}), syms, cval)
+            if isinstance(fn, (ast.Attribute, ast.Name)):
+                return _tosym(sp, ast.Call(func=fn, args=[arg], keywords=[]), syms, cval)
+        if f == "self.noise_std_inv" and len(e.args) == 1:
+            return syms["S"] * _tosym(sp, e.args[0], syms, cval)
+        if f == "self.noise_cov_inv" and len(e.args) == 1:
+            return syms["S"] ** 2 * _tosym(sp, e.args[0], syms, cval)
+    raise ValueError(s)
+
+
+
 def r12_4(ctx, m, base, impl):
     """diagonal likelihoods: metric coefficient == (left-sqrt coefficient)^2, component by component"""
     ctx.rule("R12.4", "diagonal likelihoods: for every implementation whose left_sqrt_metric and metric act component-wise on the "
@@ -282,55 +357,10 @@ def r12_4(ctx, m, base, impl):
         return
     from ..terms import subst
 
-    def terms_of(fi):
-        """(list of component expressions with locals inlined, tangent param name) or None"""
-        ps = fi.params()
-        if len(ps) < 3:
-            return None
-        env = {}
-        for st in fi.node.body:
-            if isinstance(st, ast.Assign) and len(st.targets) == 1 and isinstance(st.targets[0], ast.Name):
-                env[st.targets[0].id] = subst(st.value, env)
-            elif isinstance(st, ast.Return):
-                v = subst(st.value, env)
-                if isinstance(v, ast.Call) and src(v.func) == "type(primals)" and len(v.args) == 1:
-                    v = v.args[0]
-                comps = list(v.elts) if isinstance(v, ast.Tuple) else [v]
-                return comps, ps[1], ps[2]
-            elif isinstance(st, ast.Expr):
-                continue
-            else:
-                return None
-        return None
+    terms_of = _terms_of
 
     def tosym(e, syms, cval):
-        if isinstance(e, ast.Constant) and isinstance(e.value, (int, float)):
-            return sp.nsimplify(e.value)
-        s = src(e)
-        if s == "self.iscomplex":
-            return sp.Integer(cval)
-        if s == "self.dof":
-            return syms["dof"]
-        if isinstance(e, ast.Subscript) and isinstance(e.value, ast.Name) and isinstance(e.slice, ast.Constant):
-            return syms.setdefault(f"{e.value.id}[{e.slice.value}]", sp.Symbol(f"{e.value.id}_{e.slice.value}", positive=True))
-        if isinstance(e, ast.Name):
-            return syms.setdefault(e.id, sp.Symbol(e.id, positive=True))
-        if isinstance(e, ast.BinOp):
-            a, b = tosym(e.left, syms, cval), tosym(e.right, syms, cval)
-            ops = {ast.Add: lambda: a + b, ast.Sub: lambda: a - b, ast.Mult: lambda: a * b, ast.Div: lambda: a / b, ast.Pow: lambda: a ** b}
-            if type(e.op) in ops:
-                return ops[type(e.op)]()
-        if isinstance(e, ast.UnaryOp) and isinstance(e.op, ast.USub):
-            return -tosym(e.operand, syms, cval)
-        if isinstance(e, ast.Call):
-            f = src(e.func)
-            if f in ("jnp.sqrt", "np.sqrt") and len(e.args) == 1:
-                return sp.sqrt(tosym(e.args[0], syms, cval))
-            if f == "self.noise_std_inv" and len(e.args) == 1:
-                return syms["S"] * tosym(e.args[0], syms, cval)
-            if f == "self.noise_cov_inv" and len(e.args) == 1:
-                return syms["S"] ** 2 * tosym(e.args[0], syms, cval)
-        raise ValueError(s)
+        return _tosym(sp, e, syms, cval)
 
     for c in impl.classes.values():
         if base not in m.mro(c) or c is base:
@@ -633,3 +663,320 @@ def run(ctx):  # noqa: F811
     _run_c12c(ctx)
     r12_6(ctx, ctx.model)
     r12_7(ctx, ctx.model)
+
+
+# ---------------------------------------------------------------------------------------------------------------- R12.8 / R12.9
+def r12_8(ctx, m):
+    """VariableCovarianceGaussian: expected pull-back of the (documented local) transformation equals the metric, real and complex"""
+    R = "R12.8"
+    ctx.rule(R, "VariableCovarianceGaussian: with data d ~ N(m, 1/s^2) (complex: both components, E|d-m|^2 = (1+c)/s^2), the data "
+                "average of J^T J of `transformation` (symbolic Jacobian w.r.t. (mean, std_inv)) equals the coefficients of `metric` "
+                "in both components and has vanishing cross term, for real (c=0) and complex (c=1) data", floor=2)
+    from .c03 import _load_sympy
+    sp = _load_sympy()
+    C = m.cls(IMPL, "VariableCovarianceGaussian", required=False)
+    if sp is None or C is None:
+        ctx.und(R, "VariableCovarianceGaussian::expected pull-back", "sympy or class missing", C)
+        return
+    ctx.saw_class(C)
+    tf, mf = C.methods.get("transformation"), C.methods.get("metric")
+    if tf is None or mf is None:
+        ctx.und(R, f"{C.key}::expected pull-back", "transformation/metric missing", C)
+        return
+    # transformation has (self, primals): reuse the component extractor with a dummy third parameter check
+    env = {}
+    comps = None
+    for st in tf.node.body:
+        if isinstance(st, ast.Assign) and len(st.targets) == 1 and isinstance(st.targets[0], ast.Name):
+            env[st.targets[0].id] = subst(st.value, env)
+        elif isinstance(st, ast.Return):
+            v = subst(st.value, env)
+            if isinstance(v, ast.Call) and src(v.func) == "type(primals)" and len(v.args) == 1:
+                v = v.args[0]
+            comps = list(v.elts) if isinstance(v, ast.Tuple) else None
+    tm = _terms_of(mf)
+    pn = tf.params()[1]
+    for cval in (0, 1):
+        key = f"{C.key}::E_d[J^T J] of transformation == metric ({'complex' if cval else 'real'} data)"
+        if comps is None or tm is None or len(comps) != 2 or len(tm[0]) != 2:
+            ctx.und(R, key, "transformation/metric not a two-component closed form", C)
+            continue
+        try:
+            syms = {"dof": sp.Symbol("dof", positive=True), "S": sp.Symbol("S", positive=True)}
+            dsym = sp.Symbol("d", real=True)
+            syms["self.data"] = dsym
+
+            def tr(e):
+                # self.data is a symbol of its own
+                class _D(ast.NodeTransformer):
+                    def visit_Attribute(self, n):
+                        if src(n) == "self.data":
+                            return ast.Name(id="DATA__", ctx=ast.Load())
+                        return self.generic_visit(n)
+                import copy
+                return _D().visit(copy.deepcopy(e))
+            syms["DATA__"] = dsym
+            T = [_tosym(sp, tr(c), syms, cval) for c in comps]
+            mS, sS = syms.get(f"{pn}[0]"), syms.get(f"{pn}[1]")
+            if mS is None or sS is None:
+                raise ValueError("primals components not found")
+            r = sp.Symbol("r", real=True)
+            J = [[sp.diff(t, v).subs(dsym, mS - r) for v in (mS, sS)] for t in T]
+            V = sp.Integer(1 + cval) / sS ** 2
+
+            def expect(e):
+                e = sp.expand(e)
+                p = sp.Poly(e, r)
+                out = 0
+                for (k,), co in p.terms():
+                    mom = {0: 1, 1: 0, 2: V}.get(k)
+                    if mom is None:
+                        raise ValueError("moment > 2")
+                    out += co * mom
+                return sp.simplify(out)
+            G = [[expect(sum(J[k][a] * J[k][b] for k in range(2))) for b in range(2)] for a in range(2)]
+            coef = []
+            for k, em in enumerate(tm[0]):
+                M = _tosym(sp, em, syms, cval)
+                tk = syms.get(f"{tm[2]}[{k}]")
+                coef.append(sp.simplify(sp.diff(M, tk)))
+            bad = []
+            for a in range(2):
+                if sp.simplify(G[a][a] - coef[a]) != 0:
+                    bad.append(f"component {a}: expected pull-back {G[a][a]} but metric coefficient {coef[a]}")
+            if sp.simplify(G[0][1]) != 0:
+                bad.append(f"cross term {G[0][1]} != 0")
+            ctx.check(R, key, not bad, "; ".join(bad) or f"diag(E[J^T J]) = {[str(G[0][0]), str(G[1][1])]}", C, tf.node)
+        except Exception as ex:  # noqa: BLE001
+            ctx.und(R, key, f"term not translated: {ex}", C)
+
+
+def r12_9(ctx, m):
+    """dtype-dependent coefficients are decided leaf by leaf"""
+    R = "R12.9"
+    ctx.rule(R, "likelihoods on pytree data: a complex-ness flag that scales per-component coefficients (self.iscomplex) is computed "
+                "leaf-wise (tree_map over the data with a per-leaf dtype test), never from the joint result type - data may mix real "
+                "and complex leaves", floor=1)
+    impl = m.module(IMPL)
+    for c in impl.classes.values():
+        init = c.methods.get("__init__")
+        if init is None:
+            continue
+        for st in walk_no_nested(init.node):
+            if not (isinstance(st, ast.Assign) and len(st.targets) == 1 and src(st.targets[0]) == "self.iscomplex"):
+                continue
+            used = any(isinstance(z, ast.Attribute) and src(z) == "self.iscomplex" for name, fi in c.methods.items() if name != "__init__"
+                       for z in ast.walk(fi.node))
+            if not used:
+                continue
+            ctx.saw_func(init)
+            v = st.value
+            key = f"{c.key}.__init__::self.iscomplex decided per leaf"
+            dp = init.params()[1] if len(init.params()) > 1 else "data"
+            if isinstance(v, ast.Call) and call_name(v) in ("tree_map", "map") and len(v.args) == 2 and src(v.args[1]) in (dp, "self.data"):
+                fn = v.args[0]
+                leaf = isinstance(fn, ast.Lambda) and any(
+                    (isinstance(z, ast.Attribute) and z.attr == "dtype" and isinstance(z.value, ast.Name) and z.value.id == fn.args.args[0].arg)
+                    or (isinstance(z, ast.Call) and call_name(z) in ("iscomplexobj",)) for z in ast.walk(fn.body))
+                ctx.check(R, key, True if leaf else None, f"`{short(v, 80)}`", init, st)
+            elif any(isinstance(z, ast.Call) and call_name(z) in ("result_type", "bool", "any", "all") for z in ast.walk(v)):
+                ctx.bad(R, key, f"`{short(v, 80)}` is one flag for the whole tree; real leaves of mixed data get the complex coefficients", init, st)
+            else:
+                ctx.und(R, key, f"`{short(v, 80)}` not recognised", init, st)
+
+
+_run_c12d = run
+
+
+def run(ctx):  # noqa: F811
+    _run_c12d(ctx)
+    r12_8(ctx, ctx.model)
+    r12_9(ctx, ctx.model)
+
+
+# ---------------------------------------------------------------------------------------------------------------- R12.10
+def r12_10(ctx, m):
+    """derivative rule of the symmetric matrix square root (enters the ND variable-covariance transformation)"""
+    R = "R12.10"
+    ctx.rule(R, "tree_math.util._sqrtm_jvp (Daleckii-Krein): the tangent is rotated into the eigenbasis (U.T @ dM @ U), divided "
+                "entry-wise by the first divided difference denominator sqrt(v_i) + sqrt(v_j) - symmetric in both eigen indices - and "
+                "rotated back (U @ . @ U.T); the primal output is the same expression as in _sqrtm", floor=3)
+    mod = m.module("nifty.re.tree_math.util")
+    fi = next((f for f in mod.all_functions if f.name == "_sqrtm_jvp"), None)
+    pf = next((f for f in mod.all_functions if f.name == "_sqrtm"), None)
+    if fi is None or pf is None:
+        ctx.und(R, "nifty.re.tree_math.util::_sqrtm_jvp", "custom derivative rule not found (sqrtm differentiated by jax itself?)", mod)
+        return
+    ctx.saw_func(fi)
+
+    def is_new(e):
+        return (isinstance(e, ast.Constant) and e.value is None) or src(e) in ("jnp.newaxis", "np.newaxis")
+
+    def is_full(e):
+        return isinstance(e, ast.Slice) and e.lower is None and e.upper is None and e.step is None
+
+    def axis_of(sub):
+        """0 if X[:, None] (varies along rows), 1 if X[None, :]"""
+        if isinstance(sub, ast.Subscript) and isinstance(sub.slice, ast.Tuple) and len(sub.slice.elts) == 2:
+            a, b = sub.slice.elts
+            if is_full(a) and is_new(b):
+                return 0
+            if is_new(a) and is_full(b):
+                return 1
+        return None
+    divs = [n for n in walk_no_nested(fi.node) if isinstance(n, ast.BinOp) and isinstance(n.op, ast.Div) and isinstance(n.left, ast.Name)]
+    key = f"{fi.key}::divisor is sqrt(v_i) + sqrt(v_j)"
+    if len(divs) != 1:
+        ctx.und(R, key, f"{len(divs)} divisions of a tangent found", fi)
+    else:
+        D = divs[0].right
+        subs = [z for z in ast.walk(D) if axis_of(z) is not None]
+        names = {src(z.value) for z in subs}
+        axes = sorted(axis_of(z) for z in subs)
+        sq = False
+        for st in walk_no_nested(fi.node):
+            if isinstance(st, ast.Assign) and len(st.targets) == 1 and src(st.targets[0]) in names:
+                sq = isinstance(st.value, ast.Call) and call_name(st.value) == "sqrt"
+        if isinstance(D, ast.BinOp) and isinstance(D.op, ast.Add) and axis_of(D.left) is not None and axis_of(D.right) is not None \
+                and len(names) == 1 and axes == [0, 1]:
+            ctx.check(R, key, True if sq else None, f"`{src(D)}`" + ("" if sq else "; operand is not a square root of the eigenvalues"), fi, divs[0])
+        elif subs and len(names) == 1 and axes in ([0], [1], [0, 0], [1, 1]):
+            ctx.bad(R, key, f"`{src(D)}` depends on one eigen index only: right on the diagonal of the eigenbasis, wrong off it "
+                            "(non-commuting tangents)", fi, divs[0])
+        else:
+            ctx.und(R, key, f"`{src(D)}` not recognised", fi, divs[0])
+    _jvp_frame(ctx, R, fi, pf, divs[0].left.id if len(divs) == 1 else fi.params()[1])
+    lf = next((f for f in mod.all_functions if f.name == "_logm_jvp"), None)
+    lp = next((f for f in mod.all_functions if f.name == "_logm"), None)
+    if lf is not None and lp is not None:
+        ctx.saw_func(lf)
+        _jvp_frame(ctx, R, lf, lp, lf.params()[1])
+        # divided differences of log: symmetric use of both eigen indices
+        key = f"{lf.key}::divided difference uses both eigen indices"
+        ax = set()
+        for z in ast.walk(lf.node):
+            if isinstance(z, ast.Subscript) and isinstance(z.slice, ast.Tuple) and len(z.slice.elts) == 2:
+                a, b = z.slice.elts
+                if is_full(a) and is_new(b):
+                    ax.add(0)
+                elif is_new(a) and is_full(b):
+                    ax.add(1)
+        ctx.check(R, key, ax == {0, 1}, f"eigenvalue broadcast axes used: {sorted(ax)}", lf)
+
+
+def _jvp_frame(ctx, R, fi, pf, tn):
+    rot_in = [st for st in walk_no_nested(fi.node) if isinstance(st, ast.Assign) and tn and src(st.targets[0]) == tn
+              and isinstance(st.value, ast.BinOp) and isinstance(st.value.op, ast.MatMult)]
+    key = f"{fi.key}::tangent rotated into the eigenbasis and back"
+    rets = [r for r in walk_no_nested(fi.node) if isinstance(r, ast.Return) and isinstance(r.value, ast.Tuple) and len(r.value.elts) == 2]
+    if not rot_in or not rets:
+        ctx.und(R, key, "rotation statements not found", fi)
+    else:
+        t_in = src(rot_in[-1].value).replace(" ", "")
+        t_out = src(rets[0].value.elts[1]).replace(" ", "")
+        import re as _re
+        mi = _re.fullmatch(r"(\w+)\.T@%s@(\w+)" % tn, t_in)
+        mo = _re.fullmatch(r"(\w+)@\w+@(\w+)\.T", t_out)
+        ok = bool(mi and mo and mi.group(1) == mi.group(2) == mo.group(1) == mo.group(2))
+        swapped = bool(_re.fullmatch(r"(\w+)@%s@(\w+)\.T" % tn, t_in) or _re.fullmatch(r"(\w+)\.T@\w+@(\w+)", t_out))
+        ctx.check(R, key, True if ok else (False if swapped else None), f"in: `{t_in}`, out: `{t_out}`", fi, rot_in[-1])
+        key = f"{fi.key}::primal output is the primal function's expression"
+        pr = [r for r in walk_no_nested(pf.node) if isinstance(r, ast.Return)]
+
+        def inl(fn, e):
+            env = {}
+            for st in walk_no_nested(fn.node):
+                if isinstance(st, ast.Assign) and len(st.targets) == 1 and isinstance(st.targets[0], ast.Name) and st.targets[0].id != tn:
+                    env[st.targets[0].id] = subst(st.value, env)
+            return src(subst(e, env))
+        a_, b_ = inl(fi, rets[0].value.elts[0]), (inl(pf, pr[0].value) if len(pr) == 1 else None)
+        ctx.check(R, key, (a_ == b_) if b_ is not None else None, f"jvp returns `{a_}`, {pf.name} returns `{b_}`", fi, rets[0])
+
+
+
+_run_c12e = run
+
+
+def run(ctx):  # noqa: F811
+    _run_c12e(ctx)
+    r12_10(ctx, ctx.model)
+
+
+# ---------------------------------------------------------------------------------------------------------------- R12.11
+def r12_11(ctx, m):
+    """independent data entries: metric and square roots are block-diagonal over them - no tree-wide reduction outside the energy"""
+    R = "R12.11"
+    ctx.rule(R, "likelihood implementations: the energy is a sum over independent data entries (rows / leaves), so metric, "
+                "left/right square root, transformation and normalised residual act entry-wise (block-wise along an explicit axis): "
+                "they contain no tree-wide reduction (tree_math sum / vdot / norm, jnp.sum without axis) - such a reduction couples "
+                "rows of batched data and leaves of pytree data", floor=12)
+    impl = m.module(IMPL)
+    base = m.cls("nifty.re.likelihood", "Likelihood")
+    full = {"sum", "vdot", "dot", "norm"}
+    for c in impl.classes.values():
+        if base not in m.mro(c) or c is base:
+            continue
+        for name in ("metric", "left_sqrt_metric", "right_sqrt_metric", "transformation", "normalized_residual"):
+            fi = c.methods.get(name)
+            if fi is None:
+                continue
+            ctx.saw_func(fi)
+            bad = []
+            for z in ast.walk(fi.node):
+                if not isinstance(z, ast.Call):
+                    continue
+                if isinstance(z.func, ast.Name) and z.func.id in full and impl.imports.get(z.func.id, "").startswith("nifty.re.tree_math"):
+                    bad.append(src(z))
+                elif src(z.func) in ("jnp.sum", "np.sum", "jnp.mean", "np.mean") and not any(k.arg == "axis" for k in z.keywords) and len(z.args) < 2:
+                    bad.append(src(z))
+            ctx.check(R, f"{fi.key}::no tree-wide reduction", not bad, f"{[b[:60] for b in bad]}" if bad else "", fi)
+
+
+_run_c12f = run
+
+
+def run(ctx):  # noqa: F811
+    _run_c12f(ctx)
+    r12_11(ctx, ctx.model)
+
+
+# ---------------------------------------------------------------------------------------------------------------- R12.12
+def r12_12(ctx, m):
+    """matrix functions through eigh: jax's eigh derivative divides by eigenvalue differences"""
+    R = "R12.12"
+    ctx.rule(R, "tree_math.util: every matrix function evaluated through jnp.linalg.eigh and differentiated by the likelihoods "
+                "(sqrtm, logm enter NDVariableCovarianceGaussian.transformation, whose Jacobian is the pull-back) carries a custom "
+                "derivative rule (jax.custom_jvp + defjvp) - jax's own eigh derivative is NaN at repeated eigenvalues, e.g. at the "
+                "identity matrix", floor=1)
+    mod = m.module("nifty.re.tree_math.util")
+    rules = set()
+    for fi in mod.all_functions:
+        for d in fi.node.decorator_list:
+            if isinstance(d, ast.Attribute) and d.attr in ("defjvp", "defvjp") and isinstance(d.value, ast.Name):
+                rules.add(d.value.id)
+    for st in ast.walk(mod.tree):
+        if isinstance(st, ast.Call) and isinstance(st.func, ast.Attribute) and st.func.attr in ("defjvp", "defvjp") and isinstance(st.func.value, ast.Name):
+            rules.add(st.func.value.id)
+    n = 0
+    for fi in mod.all_functions:
+        if fi.parent is not None:
+            continue
+        if not any(isinstance(z, ast.Call) and src(z.func).endswith("linalg.eigh") for z in walk_no_nested(fi.node)):
+            continue
+        if any(isinstance(d, ast.Attribute) and d.attr in ("defjvp", "defvjp") for d in fi.node.decorator_list):
+            continue  # the derivative rule itself
+        n += 1
+        ctx.saw_func(fi)
+        custom = any(src(d) in ("jax.custom_jvp", "custom_jvp", "jax.custom_vjp", "custom_vjp") for d in fi.node.decorator_list)
+        ctx.check(R, f"{fi.key}::eigh-based matrix function has a custom derivative rule", custom and fi.name in rules,
+                  "differentiated through jnp.linalg.eigh: derivative is NaN where two eigenvalues coincide", fi)
+    if not n:
+        ctx.und(R, "nifty.re.tree_math.util::eigh-based matrix functions", "none found", mod)
+
+
+_run_c12g = run
+
+
+def run(ctx):  # noqa: F811
+    _run_c12g(ctx)
+    r12_12(ctx, ctx.model)
